@@ -76,6 +76,7 @@ type Stats struct {
 	Steps         int
 	Ended         int
 	Desync        bool
+	Dups          int
 }
 
 var errDesync = &vcore.Violation{Key: "desync"}
@@ -99,6 +100,13 @@ type exec struct {
 	nodes    map[int]*nodeObj
 	recovery []byte
 	stats    *Stats
+	last     map[int]*sentReq // per socket: the latest request and the datagram that answered it
+}
+
+type sentReq struct {
+	req, rsp []byte
+	step     int
+	kind     string
 }
 
 func (e *exec) resolve(op *Op) (class string) {
@@ -221,6 +229,49 @@ func Run(c Case, or Oracles) (res Result) {
 	return
 }
 
+// dup sends the socket's latest request once more, byte for byte (the retention timers sit an hour ahead): the answer
+// must be the datagram that answered the first copy - same sequence number, same SEID, same content - or none if none
+// was produced, at that socket only, and nothing may change.
+func (e *exec) dup(i int, op Op) *vcore.Violation {
+	l := e.last[op.Peer]
+	if l == nil {
+		return nil
+	}
+	e.stats.Dups++
+	snapBefore := e.st.Srv.VerifSnapshot()
+	dpBefore := e.d.Snapshot()
+	o := e.r.SendRaw(op.Peer, l.req)
+	if o.Dead != nil {
+		return vcore.Violatef(o.Dead.Key, "step %d (dup of step %d): UPF fatal exit: %.600s", i, l.step, o.Dead.Msg)
+	}
+	if o.Stuck {
+		return vcore.Violatef("stuck", "step %d (dup): no heartbeat answer", i)
+	}
+	if !e.or.Resp {
+		return nil
+	}
+	for sock, ds := range o.Rx {
+		for _, dg := range ds {
+			if sock != op.Peer {
+				return vcore.Violatef("stray-datagram", "step %d: retransmitted %s request of step %d from socket %d caused a datagram at socket %d", i, l.kind, l.step, op.Peer, sock)
+			}
+			if l.rsp == nil {
+				return vcore.Violatef("dup-answered", "step %d: retransmitted %s request of step %d had not been answered, its copy was: %x", i, l.kind, l.step, dg.B)
+			}
+			if !bytes.Equal(dg.B, l.rsp) {
+				return vcore.Violatef("dup-answer-differs", "step %d: retransmitted %s request of step %d answered %x, the first copy was answered %x", i, l.kind, l.step, dg.B, l.rsp)
+			}
+		}
+	}
+	if len(o.Calls) > 0 {
+		return vcore.Violatef("dup-executed", "step %d: retransmitted %s request of step %d caused data-plane calls %s", i, l.kind, l.step, vcore.JSON(o.Calls))
+	}
+	if !reflect.DeepEqual(snapBefore, e.st.Srv.VerifSnapshot()) || !reflect.DeepEqual(dpBefore, e.d.Snapshot()) {
+		return vcore.Violatef("dup-executed", "step %d: retransmitted %s request of step %d changed session or data-plane state", i, l.kind, l.step)
+	}
+	return nil
+}
+
 func (e *exec) sharing() bool {
 	ids := map[rk]int{}
 	cps := map[uint64]int{}
@@ -249,6 +300,9 @@ func (e *exec) step(i int, op Op) *vcore.Violation {
 	if op.Kind == "sleep" {
 		time.Sleep(time.Duration(op.SleepMs) * time.Millisecond)
 		return nil
+	}
+	if op.Kind == "dup" {
+		return e.dup(i, op)
 	}
 	class := ""
 	switch op.Kind {
@@ -362,6 +416,21 @@ func (e *exec) step(i int, op Op) *vcore.Violation {
 		if len(ds) != len(o.Msgs[sock]) && e.or.Resp {
 			return vcore.Violatef("undecodable-datagram", "step %d (%s): socket %d received a datagram go-pfcp cannot parse", i, op.Kind, sock)
 		}
+	}
+
+	if isReq {
+		l := &sentReq{req: o.Sent, step: i, kind: op.Kind}
+		for _, dg := range o.Rx[op.Peer] {
+			if m, err := message.Parse(dg.B); err == nil {
+				if _, isSRR := m.(*message.SessionReportRequest); !isSRR && l.rsp == nil {
+					l.rsp = dg.B
+				}
+			}
+		}
+		if e.last == nil {
+			e.last = map[int]*sentReq{}
+		}
+		e.last[op.Peer] = l
 	}
 
 	// --- expected answer and effect
